@@ -32,10 +32,15 @@ META = {
     "level_text": "Machine-checked theorems (closed under the global context) for every event sequence of the model: conservation of "
                   "accepted API messages (buffer ++ in flight ++ delivered), per-channel exactly-once in take order, snapshot = current "
                   "subscriptions at every take, a subscribed name is in every later snapshot (its stream is a gap-free suffix of the "
-                  "accepted messages), duplicates and unknown components leave the state unchanged. The model is tied to the code by "
+                  "accepted messages), duplicates, unknown components and invalid metrics leave the state unchanged, no handler ever "
+                  "crashes. The model is tied to the code by "
                   "replaying recorded traces of the real classes (all four data categories, direct and via the actor, subscriptions "
                   "before / between / back-to-back with messages) and by an independent oracle on sent-vs-received samples.",
     "level_note": "Partial by nature: FIFO task execution, non-suspending Broadcast.send, cancellation semantics and the surviving API "
-                  "receiver are runtime assumptions exercised by the trace runs, not proved; receiver overflow excluded. Requests for a "
-                  "metric the component category has no data for are outside the main stream (see the finding note in the report).",
+                  "receiver are runtime assumptions exercised by the trace runs, not proved; receiver overflow excluded. Events are "
+                  "recorded by tapping public boundaries (add_metric / _handle_data_stream wrappers, ChannelRegistry subclass, "
+                  "Receiver.consume, Sender.send), no source hooks. Finding C20-invalid-metric-kills-streams (a request for a metric "
+                  "the category has no data for stopped all streams of the component) was fixed in /repo (commit c7e4911); the "
+                  "model is the repaired one and the witness is in corpus/C20. The metric numbering of the model follows the order "
+                  "of ComponentMetricId in the installed frequenz-client-microgrid; the four extraction maps are compared entry by entry.",
 }
